@@ -3,6 +3,7 @@
 package tendermint
 
 import (
+	"math"
 	"strings"
 	"time"
 
@@ -126,6 +127,11 @@ func (cs ClientState) Validate() error {
 
 	if err := light.ValidateTrustLevel(cs.TrustLevel.ToTendermint()); err != nil {
 		return errorsmod.Wrap(ErrInvalidTrustLevel, err.Error())
+	}
+	// the trust level is converted to int64 when the trusted voting power is tallied:
+	// larger values would wrap to negative numbers and make that check vacuous
+	if cs.TrustLevel.Numerator > math.MaxInt64 || cs.TrustLevel.Denominator > math.MaxInt64 {
+		return errorsmod.Wrapf(ErrInvalidTrustLevel, "trust level numerator and denominator must not exceed %d", int64(math.MaxInt64))
 	}
 	if cs.TrustingPeriod <= 0 {
 		return errorsmod.Wrap(ErrInvalidTrustingPeriod, "trusting period must be greater than zero")
